@@ -256,3 +256,11 @@ package haproxy
 //@   props C03
 //@   at call FindPath#1 assert begin-root: $arg1 == "/" && len($arg2) == 1 && $arg2[0] == hatypes.MatchBegin
 //@ end
+
+// C12 / C05 — the frontend maps are published to the model (c.frontend.Maps)
+// only after they were written: a failed write must leave the hosts "changed"
+// so that the retry writes them
+//@ func (*config).WriteFrontendMaps#publish
+//@   props C12 C05
+//@   store Maps after writeMaps
+//@ end
